@@ -23,6 +23,17 @@ func edgeByte() *rapid.Generator[byte] {
 	})
 }
 
+// WellKnownGUIDs are GUIDs the UEFI formats give a meaning to.
+var WellKnownGUIDs = []guid.G{
+	{D1: 0x4aafd29d, D2: 0x68df, D3: 0x49ee, D4: [8]byte{0x8a, 0xa9, 0x34, 0x7d, 0x37, 0x56, 0x65, 0xa7}}, // EFI_CERT_TYPE_PKCS7_GUID
+	{D1: 0xa7717414, D2: 0xc616, D3: 0x4977, D4: [8]byte{0x94, 0x20, 0x84, 0x47, 0x12, 0xa7, 0x35, 0xbf}}, // EFI_CERT_TYPE_RSA2048_SHA256_GUID
+	{D1: 0xa5c059a1, D2: 0x94e4, D3: 0x4aa7, D4: [8]byte{0x87, 0xb5, 0xab, 0x15, 0x5c, 0x2b, 0xf0, 0x72}}, // EFI_CERT_X509_GUID
+	{D1: 0xc1c41626, D2: 0x504c, D3: 0x4092, D4: [8]byte{0xac, 0xa9, 0x41, 0xf9, 0x36, 0x93, 0x43, 0x28}}, // EFI_CERT_SHA256_GUID
+	{D1: 0xff3e5307, D2: 0x9fd0, D3: 0x48c9, D4: [8]byte{0x85, 0xf1, 0x8a, 0xd5, 0x6c, 0x70, 0x1e, 0x01}}, // EFI_CERT_SHA384_GUID
+	{D1: 0x8be4df61, D2: 0x93ca, D3: 0x11d2, D4: [8]byte{0xaa, 0x0d, 0x00, 0xe0, 0x98, 0x03, 0x2b, 0x8c}}, // EFI_GLOBAL_VARIABLE
+	{D1: 0xd719b2cb, D2: 0x3d3a, D3: 0x4596, D4: [8]byte{0xa3, 0xbc, 0xda, 0xd0, 0x0e, 0x67, 0x65, 0x6f}}, // EFI_IMAGE_SECURITY_DATABASE_GUID
+}
+
 // GUID draws a GUID: uniform bytes mixed with zero bytes, 0xff bytes and bytes
 // with a zero high nibble, so that every field gets leading zeros regularly and
 // byte order is observable.
@@ -37,6 +48,23 @@ func GUID() *rapid.Generator[guid.G] {
 				b[i] = 0xff
 			}
 			return guid.FromBE(b[:])
+		case 2, 3:
+			// a GUID the formats give a meaning to, or a near relative of one: the same 16 octets read in the other byte
+			// order (what a big-endian tool writes for it), one bit apart, fields shifted
+			k := rapid.SampledFrom(WellKnownGUIDs).Draw(t, "wellknown")
+			switch rapid.IntRange(0, 3).Draw(t, "relative") {
+			case 0:
+				return k
+			case 1:
+				return guid.FromWire(k.BE())
+			case 2:
+				w := k.BE()
+				w[rapid.IntRange(0, 15).Draw(t, "octet")] ^= byte(1 << uint(rapid.IntRange(0, 7).Draw(t, "bit")))
+				return guid.FromBE(w)
+			default:
+				w := k.BE()
+				return guid.FromBE(append(w[1:], w[0]))
+			}
 		}
 		if rapid.Bool().Draw(t, "uniform") {
 			for i := range b {
